@@ -38,15 +38,17 @@ func init() {
 }
 
 var (
-	c14Channels = []string{"a", "ab", "b.1", "b.2"}
-	c14Patterns = []string{"a*", "b.?", "*", "zz*", "a"}
+	// "a*" is also a channel NAME: the pattern `a\*` matches only it, the pattern "a*" matches it too
+	c14Channels = []string{"a", "ab", "b.1", "b.2", "a*"}
+	// "b?*" / "?.?*": a wildcard in front of the trailing star (the part before the last '*' is no literal prefix)
+	c14Patterns = []string{"a*", "b.?", "*", "zz*", "a", "b?*", `a\*`, "?.?*"}
 	// names asked from PUBSUB NUMSUB: every channel plus names that exist only as patterns
 	c14NumsubNames = []string{"a", "ab", "b.1", "b.2", "a*", "*", "zz"}
 	// globs asked from PUBSUB CHANNELS <glob>
-	c14ChannelGlobs = []string{"a*", "b.?", "*"}
+	c14ChannelGlobs = []string{"a*", "b.?", "*", "b?*", `a\*`}
 )
 
-// c14Glob is the reference glob matcher (only '*' and '?' occur in the pattern alphabet).
+// c14Glob is the reference glob matcher ('*', '?' and the escape '\\' occur in the pattern alphabet).
 func c14Glob(pat, s string) bool {
 	if pat == "" {
 		return s == ""
@@ -61,6 +63,10 @@ func c14Glob(pat, s string) bool {
 		return false
 	case '?':
 		return len(s) > 0 && c14Glob(pat[1:], s[1:])
+	case '\\':
+		if len(pat) > 1 {
+			return len(s) > 0 && s[0] == pat[1] && c14Glob(pat[2:], s[1:])
+		}
 	}
 	return len(s) > 0 && s[0] == pat[0] && c14Glob(pat[1:], s[1:])
 }
